@@ -42,7 +42,7 @@ def make_recipe(rng, tier):
     spec, nmin = anomaliser(rng, 1, True)
     n = int(rng.integers(max(nmin, 2), max(nmin, 2) + (60 if tier == "quick" else 150)))
     kind = ["mean_changes", "mean_changes", "piecewise_const", "spikes", "noise", "small_alphabet",
-            "collective"][int(rng.integers(7))]
+            "collective", "flat", "steps"][int(rng.integers(9))]
     X, _ = gen_data(rng, n, 1, kind)
     inner = spec["kw"]["change_detector"]
     if inner["cls"] == "ScriptedChangeDetector" and rng.random() < 0.5:
